@@ -4,6 +4,7 @@ import OrbitModel.Proofs.GenEqFrame
 import OrbitModel.Proofs.GenEqListener
 import OrbitModel.Proofs.GenEqDocs
 import OrbitModel.Proofs.GenEqLogQuery
+import OrbitModel.Proofs.WindowOps
 /-!
 # C12 — malformed network messages never crash a peer or change its state
 
@@ -110,5 +111,28 @@ at it, silently — acknowledged writes after it were not listed; the garbage fa
 event logs and queries) -/
 theorem event_log_windows_skip_what_is_not_an_operation_tied_to_go_text :
     Gen.logQueryOrder = Order.logQuery := gen_logQuery_order
+
+/-- what an event log lists when its log also holds entries that are not operations (`isOp e = false`),
+for EVERY log, every choice of which entries those are, every bound - an operation or not - and every
+amount: exactly the operations on the asked side of the bound's position (`windowSpecOps`). `queryWinOps`
+is the model of the Go `query`/`read` of this run (order of its steps: theorem above; compared with the
+implementation on every query of the garbage and query families). (Review of the F48 repair, fix:
+commit - the first repair filtered the operations out BEFORE it looked the bound up: a cursor on an
+entry that is not an operation was not found and the window started at the first entry.) -/
+theorem event_log_lists_the_operations_around_any_bound (isOp : Entry → Bool) (L : List Entry)
+    (o : StreamOpts) (hnd : HashNodup L) (hb : boundOk L o) (hc : NoClash o) :
+    queryWinOps isOp L o = windowSpecOps isOp L o := queryWinOps_eq_windowSpecOps isOp L o hnd hb hc
+
+/-- nothing that is not an operation is ever listed (no hypothesis at all), in the order of the log -/
+theorem event_log_never_lists_what_is_not_an_operation (isOp : Entry → Bool) (L : List Entry)
+    (o : StreamOpts) :
+    (∀ e ∈ queryWinOps isOp L o, isOp e = true ∧ e ∈ L) ∧ (queryWinOps isOp L o).Sublist (L.filter isOp) :=
+  ⟨queryWinOps_only_ops isOp L o, queryWinOps_sublist isOp L o⟩
+
+/-- on the logs the store writes itself (operations only) the listing is the plain window of C08 -/
+theorem event_log_of_operations_only_lists_as_before (isOp : Entry → Bool) (L : List Entry)
+    (o : StreamOpts) (hall : ∀ e ∈ L, isOp e = true) :
+    queryWinOps isOp L o = queryWin L o ∧ windowSpecOps isOp L o = windowSpec L o :=
+  ⟨queryWinOps_all_ops isOp L o hall, windowSpecOps_all_ops isOp L o hall⟩
 
 end Orbit.C12
